@@ -113,7 +113,7 @@ Pop(r) ==
 Op(r) ==
   /\ pc[r] = "op"
   /\ LET j == Job(r) IN
-       IF j.route = "echo"
+       IF j.route \in {"echo", "cold"}
          THEN Finish(r, RInt(j.x)) /\ UNCHANGED <<store, tmp>>
        ELSE IF j.route = "create" /\ Dev("SplitCreate")
          THEN tmp' = [tmp EXCEPT ![r] = <<Len(store.rows) + 1, 0, 0>>] /\ Goto(r, "append") /\ UNCHANGED store
